@@ -1827,7 +1827,12 @@ fn try_bitpacking(
     for expr in exprs.iter().rev() {
         let (query_plan, plan_type) =
             QueryPlan::compile_expr(expr, filter, columns, partition_len, planner)?;
-        let encoding_range = encoding_range(&query_plan, planner);
+        // A range too wide for i64 arithmetic cannot be bit packed.
+        let encoding_range = encoding_range(&query_plan, planner).filter(|(min, max)| {
+            max.checked_sub(*min).and_then(|d| d.checked_add(2)).is_some()
+                && max.checked_add(2).is_some()
+                && min.checked_neg().and_then(|m| m.checked_add(1)).is_some()
+        });
         debug!(
             "Encoding range of {:?} for {:?}",
             &encoding_range, &query_plan
